@@ -7,6 +7,7 @@ import Bridge.Abs
 import PtaProofs.Lemmas.Worklist
 import PtaProofs.Lemmas.RuleHist
 import PtaProofs.Lemmas.LArchSim
+import PtaProofs.Lemmas.LArchEmpty
 import PtaProofs.Lemmas.LayerRuleSim
 namespace Pta
 open Pta.Hist
@@ -69,5 +70,28 @@ theorem larch_invariant_lemma (ops : List LArchOp) (a : LArch) (h : runLArch ops
     (a.map (·.1)).Nodup ∧ a.pending.length ≤ 1 ∧
     ∀ l₁ ∈ a, ∀ l₂ ∈ a, ∀ f₁ ∈ l₁.2, ∀ f₂ ∈ l₂.2, f₁.isRegex = false → f₂.isRegex = false → f₁.id = f₂.id → l₁.1 = l₂.1 :=
   larch_invariant_aux ops a h
+
+theorem spec_empty_module_list_lemma (cs : List LCall) (t : LTrack) (n m : Str)
+    (hacc : classifyLArch cs = .accepted t) (hopen : t.opened = some n) :
+    classifyLArch (cs ++ [.modules [], .layer m]) = .rejectedAt (cs.length + 1) :=
+  spec_empty_keeps_open_aux cs t n m hacc hopen
+
+theorem empty_module_list_keeps_open_lemma (h : List LArchOp) (t : LTrack) (n m : Str)
+    (hacc : classifyLArch (h.map toLCall) = .accepted t) (hopen : t.opened = some n) :
+    classifyLArch ((h ++ [LArchOp.containingModules [], LArchOp.layer m]).map toLCall) = .rejectedAt (h.length + 1) ∧
+    runLArch (h ++ [LArchOp.containingModules [], LArchOp.layer m]) = .error (.improperlyConfigured, h.length + 1) :=
+  empty_keeps_open_aux h t n m hacc hopen
+
+theorem empty_module_list_noop_lemma (h : List LArchOp) (t : LTrack) (n : Str)
+    (hacc : classifyLArch (h.map toLCall) = .accepted t) (hopen : t.opened = some n) :
+    classifyLArch ((h ++ [LArchOp.containingModules []]).map toLCall) = .accepted t ∧
+    ∃ a, runLArch (h ++ [LArchOp.containingModules []]) = .ok a ∧ runLArch h = .ok a ∧ a.pending = [n] :=
+  empty_noop_aux h t n hacc hopen
+
+theorem empty_module_list_closed_lemma (h rest : List LArchOp) (t : LTrack)
+    (hacc : classifyLArch (h.map toLCall) = .accepted t) (hclosed : t.opened = none) :
+    classifyLArch ((h ++ LArchOp.containingModules [] :: rest).map toLCall) = .rejectedAt h.length ∧
+    runLArch (h ++ LArchOp.containingModules [] :: rest) = .error (.improperlyConfigured, h.length) :=
+  empty_closed_aux h rest t hacc hclosed
 
 end Pta
